@@ -20,6 +20,7 @@ Definition allowed (g : graph) (o : op) (x : N) : Prop :=
   | ONodeRemoveNs n sname => exists s, In s (first_neighbor g n RHas CNS) /\ name_of g s = sname /\ A_ns g s x
   | ODisconnect _ i => U_disc g i x
   | OUnpeer a b => exists xy, unpeer_ends g a b = Some [xy] /\ (U_cp g (fst xy) true x \/ U_cp g (snd xy) true x)
+  | OUnpeer6 a b => exists xy, In xy (unpeer_pairs g a b) /\ (U_cp g (fst xy) true x \/ U_cp g (snd xy) true x)
   | ORemoveInterface s iname => exists i, In i (cpn g s) /\ name_of g i = iname /\ U_cp g i true x
   | ORemoveChild p iname => exists i, In i (cpn g p) /\ name_of g i = iname /\ (U_cp g i false x \/ U_disc g i x)
   | OPrune => A_prune g x
@@ -111,6 +112,18 @@ Proof.
   intros x Hx. right. right. right. exists s, i. auto.
 Qed.
 
+Lemma Sound_remove_if_there c : Sound g0 (U_cp g0 c true) (remove_if_there c).
+Proof.
+  unfold remove_if_there. apply Sound_bind'; [apply Inv_get | apply Sound_get | intros b].
+  destruct b; [apply Sound_remove_cp | apply Sound_ret].
+Qed.
+
+Lemma unpeer6_ends_In ps c : In c (unpeer6_ends ps) -> exists xy, In xy ps /\ (c = fst xy \/ c = snd xy).
+Proof.
+  unfold unpeer6_ends. rewrite dedup_In, in_app_iff, !in_map_iff.
+  intros [[xy [E H]]|[xy [E H]]]; exists xy; split; auto.
+Qed.
+
 Lemma Sound_then_ret {A B} P (m : M A) (v : B) : Inv m -> Sound g0 P m -> Sound g0 P (bind m (fun _ => ret v)).
 Proof. intros Im Hm. apply Sound_bind'; [exact Im | exact Hm | intros _; apply Sound_ret]. Qed.
 
@@ -149,6 +162,25 @@ Proof.
       apply (Sound_run g _ _ r g' tr S); [|exact Hx].
       unfold run, bind. exact E.
     + match type of E with context [if ?c then _ else _] => destruct c end; simpl in E; inversion E; intros x [].
+  - (* unpeer as rewritten by C08-6: the pairs are read on g itself *)
+    unfold run, api_unpeer6, bind, need_node, m_read, m_get, guard in E. simpl in E.
+    destruct (find_node g a) as [xa|]; [|inversion E; intros x []]. simpl in E.
+    destruct (cls_eqb (ncls xa) CNS || cls_eqb (ncls xa) CLink); simpl in E; [|inversion E; intros x []].
+    destruct (unpeer_pairs g a b) as [|p0 ps'] eqn:U; [inversion E; intros x []|].
+    set (ps := p0 :: ps') in *.
+    set (P := fun x => exists xy, In xy ps /\ (U_cp g (fst xy) true x \/ U_cp g (snd xy) true x)).
+    assert (S : Sound g P (bind (for_each_set remove_if_there (unpeer6_ends ps)) (fun _ =>
+                  bind (ret (filter (fun i => negb (memN i (map fst ps))) (nth 0 cs []),
+                             filter (fun i => negb (memN i (map snd ps))) (nth 1 cs [])))
+                       (fun cc => ret [fst cc; snd cc])))).
+    { apply Sound_bind'.
+      - apply Inv_for_each_set. intros c. apply Inv_remove_if_there.
+      - apply Sound_for_each_set. intros c Hc. split; [apply Inv_remove_if_there|].
+        apply (Sound_weaken g (U_cp g c true)); [|apply Sound_remove_if_there].
+        intros x Hx. destruct (unpeer6_ends_In ps c Hc) as [xy [Hxy [->| ->]]]; exists xy; auto.
+      - intros _. apply Sound_bind'; [apply Inv_ret | apply Sound_ret | intros cc; apply Sound_ret]. }
+    apply (Sound_run g P _ r g' tr S). unfold run, bind, ret in *. simpl.
+    destruct (for_each_set remove_if_there (unpeer6_ends ps) (g, [])) as [[u|e] s1] eqn:EF; simpl in *; exact E.
   - refine (Sound_run g _ _ _ _ _ _ E).
     apply Sound_bind'; [apply Inv_api_remove_interface | apply Sound_api_remove_interface | intros c; apply Sound_ret].
   - refine (Sound_run g _ _ _ _ _ _ E).
